@@ -41,6 +41,7 @@ type replayFile struct {
 	Inputs  []string          `json:"inputs"` // hex, in creation order
 	Stubs   []json.RawMessage `json:"stubs"`
 	Clock   []string          `json:"clock"` // harness clock readings, ns since 0001-01-01 UTC
+	RandInts []string         `json:"randints"` // results of crypto/rand.Int, in call order
 }
 
 var (
@@ -81,6 +82,24 @@ type scriptedRand struct{}
 var randLog []byte
 
 func (scriptedRand) Read(p []byte) (int, error) {
+	// crypto/rand.Int reads big-endian bytes and rejection-samples; deliver the recorded result directly
+	pcs := make([]uintptr, 8)
+	fr := runtime.CallersFrames(pcs[:runtime.Callers(2, pcs)])
+	for {
+		f, more := fr.Next()
+		if f.Function == "crypto/rand.Int" {
+			v := big.NewInt(0)
+			if len(rf.RandInts) > 0 {
+				v, _ = new(big.Int).SetString(rf.RandInts[0], 10)
+				rf.RandInts = rf.RandInts[1:]
+			}
+			v.FillBytes(p)
+			return len(p), nil
+		}
+		if !more {
+			break
+		}
+	}
 	for i := range p {
 		p[i] = Byte()
 	}
@@ -483,6 +502,9 @@ func Stub(name string, outs ...interface{}) error {
 		panic(fmt.Sprintf("zzverif: stub order mismatch: native run calls %s, recorded %s", name, r.Name))
 	}
 	callOK[name] = append(callOK[name], r.Kind != "err")
+	if os.Getenv("ZZVERIF_DEBUG") != "" {
+		fmt.Fprintf(os.Stderr, "zzverif stub %s -> %s\n", name, r.Kind)
+	}
 	for i, o := range outs {
 		if i < len(r.Outs) {
 			fill(reflect.ValueOf(o).Elem(), r.Outs[i])
@@ -601,3 +623,18 @@ func CallArg(short string, i, j int) interface{} { return callArgs[fullStubName(
 
 // CallOK: whether call i of the stubbed function succeeded.
 func CallOK(short string, i int) bool { return callOK[fullStubName(short)][i] }
+
+// Intn stands in for math/rand.Intn in harnesses that make the shuffle outcome symbolic: natively it
+// returns the recorded outcome.
+func Intn(n int) int {
+	var v int
+	if err := Stub("math/rand.Intn", &v); err != nil {
+		panic(err)
+	}
+	return v
+}
+
+// ScriptStub fixes what the named stub (suffix of its full name) returns on its next unscripted call:
+// kind "val" or "err", outs in the order of the stub's outputs.  Natively a no-op: the symbolic run
+// logs what the stub returned, scripted or not, and the replay pops that log.
+func ScriptStub(short, kind string, outs ...interface{}) {}
